@@ -16,6 +16,7 @@ Import ListNotations.
 Inductive rvar : Type :=
 | Vx | Vz | Vneed | Vn | Vnow | Vsec | Vnum | Vlength | Vsize | Vi | Vo | Vs | Vv
 | Voffset | Vtimestamp       (* parameters of setHead; timestamp is also WriteSector's local *)
+| Voff                       (* writeAt's parameter off *)
 | VoldN | VoldNow            (* WriteSector: the run the chunk had before (kept reserved when the header write fails) *)
 | VlenData                   (* len(data) *)
 | Vtab.                      (* r.offsets[z][x] (the only table access the translator accepts) *)
@@ -67,6 +68,9 @@ Inductive rstmt (E B : Type) : Type :=
 | SEff0 (k : eff0) (txt : string)
 | SErrCheck (txt : string)                               (* if err != nil { txt }   (txt ends in a return) *)
 | SErrDo (txt : string) (body : list (rstmt E B))        (* if err != nil { body; txt }   (txt: the return) *)
+| SIfWriterAt (txt : string) (th : list (rstmt E B))     (* if f, ok := r.f.(io.WriterAt); ok { th }   (writeAt) *)
+| SRetWriteAt (txt : string) (e : E)                     (* return f.WriteAt(p, e)                       (writeAt) *)
+| SRetWrite (txt : string)                               (* return r.f.Write(p)                          (writeAt) *)
 | SRet (txt : string)                                    (* return ... (identifiers only) *)
 | SRetBool (txt : string) (c : B).                       (* return <condition> *)
 
@@ -74,6 +78,7 @@ Arguments SText {E B}. Arguments SLet {E B}. Arguments SLoc {E B}. Arguments SIf
 Arguments SIfUsed {E B}. Arguments SFor {E B}. Arguments SRange {E B}. Arguments SMark {E B}.
 Arguments SEff {E B}. Arguments SEff2 {E B}. Arguments SEff0 {E B}. Arguments SErrCheck {E B}. Arguments SErrDo {E B}.
 Arguments SRet {E B}. Arguments SRetBool {E B}.
+Arguments SIfWriterAt {E B}. Arguments SRetWriteAt {E B}. Arguments SRetWrite {E B}.
 
 Definition sem_stmt := rstmt (env -> Z) (env -> bool).
 Definition shape_stmt := rstmt unit unit.
@@ -93,6 +98,9 @@ Fixpoint shape {E B} (s : rstmt E B) : shape_stmt :=
   | SEff0 k t => SEff0 k t
   | SErrCheck t => SErrCheck t
   | SErrDo t body => SErrDo t (map shape body)
+  | SIfWriterAt t th => SIfWriterAt t (map shape th)
+  | SRetWriteAt t _ => SRetWriteAt t tt
+  | SRetWrite t => SRetWrite t
   | SRet t => SRet t
   | SRetBool t _ => SRetBool t tt
   end.
